@@ -1774,6 +1774,10 @@ class FuncGraph:
             return None
         if is_lambda and f.op != 'closure':
             return None
+        memoised = bool(getattr(callee, 'decorators', None)) and bool(callee.decorators & {'lru_cache', 'cache'})
+        if getattr(callee, 'decorators', None) and callee.decorators - {'staticmethod', 'classmethod', 'lru_cache', 'cache'}:
+            # a decorated function is not its body (wrappers): it stays a call
+            return None if callee.decorators & {'cached_property', 'property'} else self._gave_up(callee, e)
         if callee in self._inline_stack or len(self._inline_stack) >= 3 or callee.kwarg:
             return self._gave_up(callee, e)
         pos_ = callee.posonly + callee.args
@@ -1850,7 +1854,11 @@ class FuncGraph:
                 v = vals[0]
                 if v is not a_ and self._rooted_at(v, a_) and env.get(k_) is a_:
                     env[k_] = v
-        return subst_fall(ret, const(None, e, self.fn))
+        out = subst_fall(ret, const(None, e, self.fn))
+        if memoised:
+            # evaluated in place for its VALUE; the marker keeps the fact that every call with equal arguments is handed the same object
+            out = self._libcall('pbv.memoised', (out, const(callee.qual, e, self.fn)), e)
+        return out
 
     @staticmethod
     def _list_valued(t):
